@@ -206,8 +206,21 @@ def _types(chk, ctx) -> None:
                     ok = True
         if ok:
             break
+    comp = None
     if site is None:
-        raise AnalysisError('_begin_chips_pushing: list of hand types in play not found')
+        # the same list written as a comprehension: [k for k in <hand types> if <somebody holds a hand of type k>]
+        for n in walk_no_nested(fi.node):
+            if isinstance(n, ast.Assign) and len(n.targets) == 1 and isinstance(n.targets[0], ast.Name) and isinstance(n.value, ast.ListComp) \
+                    and _feeds_divisor(fi, n.targets[0].id):
+                comp = n
+        if comp is None:
+            raise AnalysisError('_begin_chips_pushing: list of hand types in play not found')
+        class _S:
+            node = comp
+        site = _S
+        tests = [T.norm(t) for g in comp.value.generators for t in g.ifs]
+        ok = any(T.mentions(t, lambda s: isinstance(s, tuple) and len(s) == 3 and s[0] == 'attr' and s[2] == 'player_indices') for t in tests)
+        got = '; '.join(T.show(t)[:120] for t in tests)
     chk.ob('C02.types_depend_on_pot', 'State._begin_chips_pushing', ok, ctx.loc(fi, site.node),
            "a hand type takes part in the split of a (side) pot only if one of THAT pot's eligible players holds a hand of the type "
            "(two pots with different contenders must be able to split differently)",
@@ -229,6 +242,12 @@ def _types(chk, ctx) -> None:
             if tests:
                 got_b = T.show(tests[-1])[:160]
                 ok_b = all(T.mentions(t, lambda s: s == board) for t in tests)
+    if comp is not None:
+        loops = [n for n in walk_no_nested(fi.node) if isinstance(n, ast.For) and any(x is comp for x in ast.walk(n)) and isinstance(n.target, ast.Name)]
+        boards = [n.target.id for n in loops if ctx.m.eq(T.norm(n.iter), 'self.board_indices')]
+        tests = [t for g in comp.value.generators for t in g.ifs]
+        ok_b = bool(boards) and all(any(isinstance(x, ast.Name) and x.id == boards[-1] for x in ast.walk(t)) for t in tests)
+        got_b = '; '.join(ast.unparse(t)[:120] for t in tests)
     chk.ob('C02.types_depend_on_board', 'State._begin_chips_pushing', ok_b, fi.loc,
            'whether a hand type takes part in the split is decided per board, on the hands of the very board the sub-pot is queued for',
            got=got_b)
